@@ -217,6 +217,16 @@ class CallMixin:
             if attr in ci.class_consts:
                 return self.eval_class_const(ci, attr, st)
             raise Unsupported(f"class attribute {ci.name}.{attr}")
+        if kind == "super":
+            _, selfv, ci = base.z
+            # next class in the (single-inheritance) chain that defines the method inside the repo
+            for bname in ci.bases:
+                cand = self.repo.resolve_class(ci.module, bname)
+                if cand is not None:
+                    m = self.repo.lookup_method(cand, attr)
+                    if m is not None:
+                        return V(TPy("bound"), ("bound", selfv, m[0], m[1]))
+            return V(TPy("super_extern"), ("super_extern", selfv, attr))
         if kind == "class_table":
             if attr == "get":
                 return V(TPy("class_table_get"), ("class_table_get", base.z[1]))
@@ -278,6 +288,16 @@ class CallMixin:
             return V(TPy("class_choice"), ("class_choice", fv.z[1], z3.Bool(fresh_name("found"))))
         if kind == "class_choice":
             return self.construct_any(fv.z[1], fv.z[2], args, kwargs, st, node)
+        if kind == "super_extern":
+            # method of a base class outside the repository (pyee's AsyncIOEventEmitter, Exception, ...): assumed to touch
+            # no modelled state; the emitter's constructor starts the ghost event log empty
+            _, selfv, attr = fv.z
+            if attr == "__init__" and isinstance(selfv.t, TObj):
+                ft = self.field_type(selfv.t.cls, "emitted")
+                if ft is not None and isinstance(ft[1], TList):
+                    self.write_field(st, selfv.z, ft[0], "emitted", ft[1], self.new_list_from_seq(st, ft[1].elt, theory_of(ft[1]).Empty))
+            self.note_assumption(f"super().{attr}() of an external base class assumed to touch no modelled state")
+            return V(NONE, None)
         if kind == "emitter":
             return self.call_emitter(fv.z[1], fv.z[2], args, kwargs, st, node)
         raise Unsupported(f"call of python-level {kind}: {self.src(node)}")
@@ -292,6 +312,7 @@ class CallMixin:
                 lst = self.read_field(st, recv.z, ft[0], "emitted", ft[1])
                 th = theory_of(lst.t)
                 self.set_list_content(st, lst, th.App(self.list_content(st, lst), th.Unit(box(args[0]))))
+                self.emit_discipline(recv, st, node)
                 self.note_assumption("emit(): listeners assumed not to re-enter the emitting object")
                 return V(BOOL, z3.Bool(fresh_name("had_listeners")))
         self.note_assumption(f"event-emitter call .{attr}() assumed effect-free and non-raising")
@@ -357,6 +378,11 @@ class CallMixin:
         decs = ci.decorators.get(fnode.name, []) if ci is not None else []
         if "staticmethod" in decs and args and isinstance(args[0].t, TPy) and args[0].z[0] == "class":
             args = args[1:]
+        if isinstance(fnode, ast.AsyncFunctionDef) and not getattr(self, "_awaiting", 0):
+            # calling an `async def` without awaiting it only creates a coroutine object: nothing runs here
+            # (asyncio.ensure_future(self._flush()) schedules it for later; that later run is not part of this call)
+            self.note_assumption(f"coroutine {qual} created but not awaited here: its later execution is outside this unit")
+            return fresh(ANY, "coroutine")
         c = self.reg.contracts.get(qual)
         if c is not None and not c.inline and qual != self.unit_qual_inlining:
             return self.apply_contract(st, c, mi, ci, fnode, args, kwargs, node)
@@ -1153,7 +1179,7 @@ def assigned_in(fnode):
     return assigned_names(fnode.body)
 
 
-BUILTIN_NAMES = {"pow", "len", "min", "max", "abs", "int", "bool", "bytes", "list", "tuple", "set", "dict", "sorted", "range",
+BUILTIN_NAMES = {"super", "pow", "len", "min", "max", "abs", "int", "bool", "bytes", "list", "tuple", "set", "dict", "sorted", "range",
                  "round", "enumerate", "zip", "isinstance", "float", "str", "next", "filter", "map", "any", "all",
                  "sum", "print", "repr", "ord", "chr", "getattr", "hasattr", "id", "iter", "reversed", "divmod",
                  "ValueError", "TypeError", "KeyError", "IndexError", "AssertionError", "Exception", "bytearray",
